@@ -802,7 +802,7 @@ def mut_flags_frame(t):
         return None
     for e in t["ev"]:
         if e["ev"] == "frame" and e["step"] > 0:
-            e["mism"] = 3001
+            e["mism"] = 10001      # just above FrameTolMultiple (10) x 1000 quanta
             return t
     return None
 
